@@ -203,7 +203,7 @@ private theorem rtp_of_rta (t : Template) (a : Option Str) : ∀ (fs : List (Str
 
 /-- **score notes and pre-1.0 performed notes, every admissible field assignment**: for every generated
     template with pitch post-processing, every step / accidental / octave and admissible values of all the
-    other fields, the fields are written to texts `es`, and whenever these satisfy the side condition the
+    other fields, the fields are written to texts `es` (`RTP`: each by its own formatter), and whenever these satisfy the side condition the
     line is written, parsed back (search, interpreters, post-processing) to exactly the values, and written
     again identically -/
 theorem pitch_line_roundtrip_adm (t : Template) (hmem : t ∈ Gen.matchTemplates) (hp : t.post ≠ Post.none)
@@ -213,7 +213,8 @@ theorem pitch_line_roundtrip_adm (t : Template) (hmem : t ∈ Gen.matchTemplates
     (hadm : match t.fields with
       | f0 :: _ :: _ :: _ :: fr => AdmFields t none (f0 :: fr) (v0 :: rest)
       | _ => False) :
-    ∃ es, ∀ pre tail, FieldsOKGen t (textOf es) tail → noEarly t.pat pre (render t.out (textOf es) ++ tail) = true →
+    ∃ es, RTP t.fields (v0 :: .str step :: optInt alter :: optInt octave :: rest) es ∧
+     ∀ pre tail, FieldsOKGen t (textOf es) tail → noEarly t.pat pre (render t.out (textOf es) ++ tail) = true →
       ∃ line, formatT t (v0 :: .str step :: optInt alter :: optInt octave :: rest) = some line ∧
         parseT t (pre ++ (line ++ tail)) = .ok (v0 :: .str step :: optInt alter :: optInt octave :: rest) ∧
         ((parseT t (pre ++ (line ++ tail))).toOption.bind (formatT t)) = some line := by
@@ -249,14 +250,16 @@ theorem pitch_line_roundtrip_adm (t : Template) (hmem : t ∈ Gen.matchTemplates
         cases h2 : encode fM.2.1 (optInt alter) with
         | none => simp [h1, h2] at htext
         | some x2 =>
-          refine ⟨e0 :: (fN.1, x1) :: (fM.1, x2) :: (fO.1, encInt octave) :: esr, ?_⟩
+          have hrtp' : RTP t.fields (v0 :: .str step :: optInt alter :: optInt octave :: rest)
+              (e0 :: (fN.1, x1) :: (fM.1, x2) :: (fO.1, encInt octave) :: esr) := by
+            rw [hf]
+            refine ⟨hn0, he0, hd0, rfl, h1, Or.inl (by rw [hN]; simp [pitchNames]), rfl, h2,
+              Or.inl (by rw [hM]; simp [pitchNames]), rfl, ?_, Or.inl (by rw [hO]; simp [pitchNames]), hrr⟩
+            rw [hOe]
+            cases octave <;> rfl
+          refine ⟨e0 :: (fN.1, x1) :: (fM.1, x2) :: (fO.1, encInt octave) :: esr, hrtp', ?_⟩
           intro pre tail hv hpre
-          apply pitch_line_roundtrip t hmem hp v0 step alter octave rest _ pre tail hstep halter hoct ?_ hv hpre
-          rw [hf]
-          refine ⟨hn0, he0, hd0, rfl, h1, Or.inl (by rw [hN]; simp [pitchNames]), rfl, h2,
-            Or.inl (by rw [hM]; simp [pitchNames]), rfl, ?_, Or.inl (by rw [hO]; simp [pitchNames]), hrr⟩
-          rw [hOe]
-          cases octave <;> rfl
+          exact pitch_line_roundtrip t hmem hp v0 step alter octave rest _ pre tail hstep halter hoct hrtp' hv hpre
   · simp at hl
 
 -- non-vacuity: the fields of a pedal line are admissible
